@@ -193,13 +193,18 @@ func build(s start, h *hasher, ctor int) (fp.Map[int, int], *model) {
 
 func step(m fp.Map[int, int], md *model, k int, tag string) fp.Map[int, int] {
 	v := zz.Int("v" + tag)
-	switch zz.Choice("op"+tag, 4) {
+	switch zz.Choice("op"+tag, 5) {
 	case 0:
 		md.set(k, v)
 		return m.Updated(k, v)
 	case 1:
 		md.del(k)
 		return m.Removed(k)
+	case 4:
+		md.del(101)
+		md.del(k)
+		md.del(106)
+		return m.Removed(101, k, 106)
 	case 2:
 		shape := zz.Choice("remap"+tag, 3)
 		old, had := 0, false
